@@ -2,3 +2,69 @@
 (independent of the selfies package)."""
 DOC_INDEX = ["[C]", "[Ring1]", "[Ring2]", "[Branch1]", "[=Branch1]", "[#Branch1]", "[Branch2]",
              "[=Branch2]", "[#Branch2]", "[O]", "[N]", "[=N]", "[=C]", "[#C]", "[S]", "[P]"]
+
+# ---------------------------------------------------------------------------
+# O-MODERN: legacy (pre-v2) symbol -> documented modern equivalent (CHANGELOG v2.0.0),
+# written without reference to selfies.compatibility.
+import re as _re
+
+_ORGANIC = {"B", "C", "N", "O", "S", "P", "F", "Cl", "Br", "I"}
+_ATOM = _re.compile(r"^\[(?P<iso>[0-9]*)(?P<el>[A-Za-z][a-z]?)(?P<chi>@{0,2})(?P<h>(?:H[0-9]?)?)"
+                    r"(?P<chg>(?:\++|-+|[+-][0-9]+)?)(?P<cls>(?::[0-9]+)?)\]$")
+_ELEMENTS = set("""H He Li Be B C N O F Ne Na Mg Al Si P S Cl Ar K Ca Sc Ti V Cr Mn Fe Co Ni Cu Zn Ga Ge As Se Br
+Kr Rb Sr Y Zr Nb Mo Tc Ru Rh Pd Ag Cd In Sn Sb Te I Xe Cs Ba Hf Ta W Re Os Ir Pt Au Hg Tl Pb Bi Po At Rn Fr Ra Rf Db
+Sg Bh Hs Mt Ds Rg Cn Fl Lv La Ce Pr Nd Pm Sm Eu Gd Tb Dy Ho Er Tm Yb Lu Ac Th Pa U Np Pu Am Cm Bk Cf Es Fm Md No Lr""".split())
+_AROMATIC = {"b", "c", "n", "o", "s", "p", "al", "si", "as", "se", "te"}
+
+
+def standard_atom_text(text):
+    """canonical v2 spelling of the bracket atom '[...]' (None if it is not a supported non-aromatic atom)"""
+    m = _ATOM.match(text)
+    if m is None:
+        return None
+    el = m.group("el")
+    if el.islower() and el in _AROMATIC:
+        return None  # aromatic atoms have no SELFIES symbol
+    el = el.capitalize()
+    if el not in _ELEMENTS:
+        return None
+    iso, chi, h, chg = m.group("iso"), m.group("chi"), m.group("h"), m.group("chg")
+    hc = 0 if not h else (1 if h == "H" else int(h[1:]))
+    if not chg:
+        c = 0
+    elif chg[-1].isdigit():
+        c = int(chg[1:]) * (1 if chg[0] == "+" else -1)
+    else:
+        c = len(chg) * (1 if chg[0] == "+" else -1)
+    out = (str(int(iso)) if iso else "") + el + chi
+    if hc:
+        out += "H%d" % hc
+    elif not iso and not chi and c == 0 and el in _ORGANIC:
+        out += "H0"
+    if c:
+        out += "%+d" % c
+    return out
+
+
+def is_legacy(sym):
+    return bool(_re.match(r"^\[Branch[123]_[123]\]$", sym) or _re.match(r"^\[Expl[=#/\\]Ring[123]\]$", sym)
+                or sym.endswith("expl]"))
+
+
+def modernize(sym):
+    m = _re.match(r"^\[Branch([123])_([123])\]$", sym)
+    if m:
+        return "[%sBranch%s]" % ({"1": "", "2": "=", "3": "#"}[m.group(2)], m.group(1))
+    m = _re.match(r"^\[Expl([=#/\\])Ring([123])\]$", sym)
+    if m:
+        b = m.group(1)
+        return "[%sRing%s]" % (b if b in "=#" else b + b, m.group(2))
+    if sym.endswith("expl]") and len(sym) > 6:
+        body = sym[1:-5]
+        bond = ""
+        if body[:1] in ("=", "#", "/", "\\"):
+            bond, body = body[0], body[1:]
+        std = standard_atom_text("[" + body + "]")
+        if std is not None:
+            return "[" + bond + std + "]"
+    return sym
